@@ -32,7 +32,7 @@ def all_descriptors(mol):
     return out
 
 
-def symbolize_weights(c, mol, mode="all", lo=W_LO, hi=W_HI):
+def symbolize_weights(c, mol, mode="all", lo=W_LO, hi=W_HI, avoid_one=False):
     """Replace every written positive weight by a fresh real in [lo, hi]; zeros stay 0.
     Lists become lists of fresh reals with the same zero pattern, weight = their sum.
     Returns {role: term}."""
@@ -59,6 +59,10 @@ def symbolize_weights(c, mol, mode="all", lo=W_LO, hi=W_HI):
                 out[role] = bd.weight
                 continue
             bd.weight = c.fresh_real(name, lo, hi)
+            if avoid_one:
+                # the printers fork on `weight != 1.0`; for molecules with many descriptors the single value 1.0 is excluded
+                # (stated in the evidence) so that printing does not multiply the paths by 2^descriptors
+                c.add((bd.weight != 1.0).e)
             out[role] = bd.weight
     return out
 
